@@ -88,7 +88,7 @@ func (x *Exec) Run() (err error) {
 		for _, r := range x.contract.Requires {
 			t := x.evalBool(r, env)
 			reqs = append(reqs, t)
-			x.vc.assume(t)
+			x.vc.assumeAlways(t)
 		}
 		// vacuity probe: requires satisfiable
 		o := x.oblige("vacuity/requires", "vacuity", tTrue, tFalse, "requires must be satisfiable", fn.Pos())
@@ -102,6 +102,11 @@ func (x *Exec) Run() (err error) {
 		for _, wv := range x.contract.Waivers {
 			if !x.usedWaivers[wv] {
 				x.warn("waiver %s at %q unused", wv.Kind, wv.Text)
+			}
+		}
+		for _, c := range x.contract.Cuts {
+			if !x.cutsDone[c] {
+				panic(unsupported("cut anchor \"" + c.Text + "\" not found (contract-anchor-lost)"))
 			}
 		}
 		if x.contract.Split != nil && !x.splitDone {
@@ -318,6 +323,7 @@ func (x *Exec) runBlock(b *ssa.BasicBlock) {
 
 	for _, ins := range b.Instrs {
 		x.curInstr = ins
+		x.maybeCut(ins)
 		x.step(ins, preds, conds)
 	}
 	x.curInstr = nil
@@ -328,6 +334,44 @@ func (x *Exec) runBlock(b *ssa.BasicBlock) {
 		if x.backEdge[[2]*ssa.BasicBlock{b, s}] {
 			x.closeLoop(x.loops[s], x.edge[b][si])
 		}
+	}
+}
+
+// maybeCut implements "cut before <text>": at the first instruction on a source line
+// containing the text, the clause is proved, the listed variables are havocked, the
+// clause is assumed, and the path condition restarts from true (the cut point must
+// dominate everything executed afterwards; early returns before it are unaffected).
+func (x *Exec) maybeCut(ins ssa.Instruction) {
+	if x.contract == nil || len(x.contract.Cuts) == 0 {
+		return
+	}
+	pos := ins.Pos()
+	if !pos.IsValid() {
+		return
+	}
+	text := x.lineText(pos)
+	for _, c := range x.contract.Cuts {
+		if x.cutsDone[c] || !strings.Contains(text, c.Text) {
+			continue
+		}
+		x.cutsDone[c] = true
+		env := x.envAt(pos)
+		t := x.evalBool(c.Clause, env)
+		x.oblige(fmt.Sprintf("cut/%s", identSan.ReplaceAllString(c.Text, "_")), "cut", x.curPC, t, c.Clause.Text, pos)
+		for _, name := range c.Havoc {
+			cell := x.lookupCellAt(name, pos)
+			if cell == nil {
+				panic(unsupported("cut: unknown variable " + name + " (contract-anchor-lost)"))
+			}
+			x.cur.mem[cell] = x.havocLike(x.cur.mem[cell], "cut_"+name)
+		}
+		env = x.envAt(pos)
+		t = x.evalBool(c.Clause, env)
+		x.vc.assume(t)
+		x.cutFacts = append(x.cutFacts, len(x.vc.lines)-1)
+		x.curPC = tTrue
+		o := x.oblige(fmt.Sprintf("cut/%s/cover", identSan.ReplaceAllString(c.Text, "_")), "cover", tTrue, tFalse, "cut assumption satisfiable", pos)
+		o.MustFail = true
 	}
 }
 
@@ -591,7 +635,7 @@ func (x *Exec) step(ins ssa.Instruction, preds []*ssa.BasicBlock, conds []T) {
 						o.Keep = true
 					} else if x.splitVal != nil {
 						lit := x.th.Lit(big.NewInt(int64(*x.splitVal)), *l.MT)
-						x.vc.assume(mkImp(x.curPC, mkEq(l.T, lit)))
+						x.vc.assumeAlways(mkImp(x.curPC, mkEq(l.T, lit)))
 						val = Leaf{T: lit, MT: l.MT}
 					}
 				}
@@ -964,8 +1008,24 @@ func (x *Exec) doReturn(r *ssa.Return) {
 		x.oblige(fmt.Sprintf("nopanic/%s", site), "panics-iff", x.curPC, mkNot(t), "normal return implies not panics-condition: "+x.contract.Panics.Text, pos)
 	}
 	// cover: this return is reachable
-	o := x.oblige("cover/"+site, "cover", x.curPC, tFalse, "return reachable", pos)
-	o.MustFail = true
+	if !x.waived("cover", pos) {
+		o := x.oblige("cover/"+site, "cover", x.curPC, tFalse, "return reachable", pos)
+		o.MustFail = true
+	}
+}
+
+func (x *Exec) waived(kind string, pos token.Pos) bool {
+	if x.contract == nil {
+		return false
+	}
+	text := x.lineText(pos)
+	for _, wv := range x.contract.Waivers {
+		if wv.Kind == kind && (wv.Text == "" || strings.Contains(text, wv.Text)) {
+			x.usedWaivers[wv] = true
+			return true
+		}
+	}
+	return false
 }
 
 func (x *Exec) doPanic(p *ssa.Panic) {
